@@ -99,6 +99,7 @@ def scenarios(tier):
         scn("move|moveback", SEL_A_Bo, A=["move1"], B=["moveback"]),
         scn("copy|delete-dst", SEL_AB, A=["copy12"], B=["delother"]),
         scn("copy|rename-dst", SEL_AB, A=["copy12"], B=["renother"]),
+        scn("delete|select,noop", SEL_AB, A=["delother"], B=["selother", "noop"]),
         scn("select|select-inactive", [], A=["selother"], B=["selother"]),
         scn("copy|expunge", SEL_AB + DEL1, A=["expunge"], B=["copy12"]),
         # deviations that *stay*: an operation passed over remains postponed until nothing else can run, so one session's
